@@ -55,7 +55,7 @@ impl FlatIndex {
     }
 }
 
-fn remap_batch(batch: RecordBatch, mapping: &HashMap<u64, Option<u64>>) -> Result<RecordBatch> {
+pub(super) fn remap_batch(batch: RecordBatch, mapping: &HashMap<u64, Option<u64>>) -> Result<RecordBatch> {
     let row_ids = batch.column(1).as_primitive::<UInt64Type>();
     let val_idx_and_new_id = row_ids
         .values()
